@@ -1,6 +1,6 @@
 """C09 - the 300-byte limit."""
 import guards
-from kernel import ok_payload, strip
+from kernel import same_value, ok_payload, strip
 from rules import mutators
 from rules.typestate import MAX_ENR_SIZE, TOP, buffer_fill, const_int, trace_local
 
@@ -357,20 +357,58 @@ def decoder_guard(ctx, report):
 
 
 def builder_slack(ctx, report):
+    """build() returns Ok only behind `len(P) + len(S) + c <= 300`, 4 <= c <= 8, where P is a self.rlp_content()
+    taken after the last content write (the payload that is signed, or an identical later one) and S the signature
+    just computed.  Decided on build() with its helpers spliced in (c05.build_facts)."""
+    from rules.c05 import build_facts
     cfg = ctx.config
-    f = ctx.facts.fn("builder::Builder::<K>::build")
+    bf = build_facts(ctx)
+    f = bf.get("fn")
     if f is None:
         report.violate("BUILD", "slack", "anchor Builder::build not found", config=cfg)
         return
     report.analysed_fns.add(f.path)
-    an = ctx.an(f)
+    an = bf["an"]
+    g = an.cfg
+    signs = bf["signs"]
+    writes = [w for w in bf["writes"] if w["path"][:1] == ["content"] or w["path"] == []]
     oks = []
     for bb, idx, node in an.defs().get(0, []):
         rv = getattr(node, "rv", None)
-        if rv is not None and rv.kind == "aggregate" and rv.j.get("variant") == "Ok" and bb in an.cfg.succ:
+        if rv is not None and rv.kind == "aggregate" and rv.j.get("variant") == "Ok" and bb in g.succ:
             oks.append((bb, idx, node))
     if not oks:
         report.violate("BUILD", "slack", "build has no Ok exit", fn=f.path, sp=f.span, config=cfg)
+
+    # the object whose payload is signed (and whose pairs go into the record)
+    signed_recv = None
+    if len(signs) == 1:
+        sb, st_ = signs[0]
+        msg = strip(an.operand_expr(st_.args[1], sb.idx, len(sb.stmts)))
+        for x in msg.walk():
+            if x.k == "call" and x.a[0].target() == "builder::Builder::<K>::rlp_content" and x.a[1]:
+                signed_recv = strip(x.a[1][0])
+
+    def is_payload(e):
+        """len(X.rlp_content()) for the X whose payload is signed (self), taken when no content write can follow"""
+        e = strip(e)
+        if not (e.k == "call" and e.a[0].target() == "builder::Builder::<K>::rlp_content" and e.a[1]):
+            return False
+        a0 = strip(e.a[1][0])
+        if not (a0.k == "param" and a0.a[0] == 1):
+            return False
+        if signed_recv is None or not same_value(a0, signed_recv):
+            return False
+        return not any(g.reaches(e.site, w["bb"]) and w["bb"] != e.site for w in writes)
+
+    def is_signature(e):
+        e = strip(e)
+        p = ok_payload(e)
+        ps = strip(p) if p is not None else e
+        while ps.k == "call" and ps.a[0].name == "map_err" and ps.a[1]:
+            ps = strip(ps.a[1][0])
+        return bool(signs) and ps.k == "call" and ps.a[0].name == "sign_v4" and ps.site == signs[0][0].idx
+
     for bb, idx, node in oks:
         good = False
         detail = []
@@ -384,20 +422,29 @@ def builder_slack(ctx, report):
             atoms, cst = guards.linear(q, const_int, strip)
             if len(atoms) != 2:
                 continue
-            names = []
+            kinds = []
             for a in atoms:
                 a = strip(a)
                 if a.k == "call" and a.a[0].name == "len" and a.a[1]:
-                    inner = strip(a.a[1][0])
-                    p = ok_payload(inner)
-                    if p is not None:
-                        inner = strip(p)
-                    if inner.k == "call":
-                        names.append(inner.a[0].name)
-            # continuing set for (content_len + sig_len): sum + c <= 300
+                    inner = a.a[1][0]
+                    kinds.append("payload" if is_payload(inner) else "signature" if is_signature(inner) else "?")
+                else:
+                    kinds.append("?")
             cont = guards.shift(sset, cst)
-            detail.append((sorted(names), cst, guards.fmt(cont)))
-            if sorted(names) == ["rlp_content", "signature"] and 4 <= cst <= 8 and cont == [(0, MAX_ENR_SIZE - cst)]:
+            detail.append((sorted(kinds), cst, guards.fmt(cont)))
+            if sorted(kinds) == ["payload", "signature"] and 4 <= cst <= 8 and cont == [(0, MAX_ENR_SIZE - cst)]:
                 good = True
-        report.check("BUILD", "slack", good, "build() returns Ok only if rlp_content.len() + signature.len() + c <= 300 with 4 <= c <= 8",
-                     "build()'s size check is not `content + signature + c <= 300` with 4 <= c <= 8 (found %s)" % detail, fn=f.path, sp=node.sp, config=cfg)
+        report.check("BUILD", "slack", good, "build() returns Ok only if len(self.rlp_content()) + len(signature) + c <= 300 with 4 <= c <= 8, measured on the final content",
+                     "build()'s size check is not `final content + signature + c <= 300` with 4 <= c <= 8 (found %s)" % detail, fn=f.path, sp=node.sp, config=cfg)
+
+
+_own_run = run
+
+
+def run(ctx, report):
+    _own_run(ctx, report)
+    from common import Only
+    from rules import c07
+    # "refused with the size error": a wrapper must pass the refusal on, not turn it into a success
+    c07.run(ctx, Only(report, {"ONCE": "REPORTS"}, keys=lambda r, k: k.endswith("swallows-error")))
+
